@@ -33,7 +33,8 @@
 (*     the closest point of the arc = the foot if it lies on the arc, else *)
 (*     the end nearer to the foot along C (spherical Pythagoras: cos d =   *)
 (*     cos xtd cos arc, monotone in arc), both on a tie.  All angles in    *)
-(*     quarter degrees (Sphere.tla).                                       *)
+(*     quarter degrees (Sphere.tla).  `arc` names the arcs along which the *)
+(*     longitude is not constant / continuous (over a pole).               *)
 (***************************************************************************)
 EXTENDS Hull, TLC, Json, SequencesExt
 
@@ -158,7 +159,13 @@ XtCase(ck, l0, ta, s, P) ==
                 ELSE IF inside THEN <<CirclePoint(ck, l0, r.foot)>>
                 ELSE IF da < db \/ s = 0 THEN <<A>> ELSE IF db < da THEN <<B>> ELSE <<A, B>>
         alongA == IF any THEN 0 ELSE IF inside THEN u ELSE IF da <= db THEN 0 ELSE s     \* arc from A to the closest point
-    IN [op |-> "xtrack", ck |-> ck, l0 |-> l0, ta |-> ta, s |-> s, a |-> A, b |-> B, m |-> M, p |-> P,
+        \* "to_pole": the arc ends at a pole and stays on one meridian; "over_pole": it passes over a pole, or ends at a pole that is
+        \* spelled with the longitude of the opposite meridian (the longitude jumps by a half turn along the arc); else "plain"
+        Poles == {RT, FT - RT, FT + RT}
+        within == \E t \in Poles : ta < t /\ t < ta + s
+        atend == \E t \in Poles : t = ta \/ t = ta + s
+        arc == IF ck = "eq" \/ (~within /\ ~atend) THEN "plain" ELSE IF ~within /\ A[1] = B[1] THEN "to_pole" ELSE "over_pole"
+    IN [op |-> "xtrack", ck |-> ck, l0 |-> l0, ta |-> ta, s |-> s, a |-> A, b |-> B, m |-> M, p |-> P, arc |-> arc,
         xtd |-> r.xtd, any |-> any, inside |-> inside, feet |-> feet, along |-> alongA,
         kind |-> IF inside /\ r.xtd = 0 THEN "intersection" ELSE "single",
         \* the intersection is recognisable from the coordinates alone (P is spelled like the point of the arc)
